@@ -207,6 +207,27 @@ CHECKS += [
      "note": _SCHED_NOTE + " Call nodes used by more than one job and arguments built from catch/map_/apply_func are only checked for row presence and value."},
 ]
 
+CHECKS += [
+    {"id": "C04", "engine": "opseq", "level": "model_checking",
+     "technique": "exhaustive enumeration of external-change histories per file value class, each followed by a run on the shared backend",
+     "text": "For each of the 9 file value classes (bare or nested) every history of 2 (quick) / 3 (thorough) external changes, each followed by a run "
+     "of a task that writes and returns the value; the run must not raise, the task re-executes iff the class is mutable and the current hash "
+     "differs from the recorded one, and the returned value describes the current filesystem state.",
+     "note": _SCHED_NOTE + " Local filesystem only."},
+    {"id": "C28", "engine": "opseq", "level": "model_checking",
+     "technique": "exhaustive enumeration of backend histories; differential dry run vs real run on copies of each reached backend state",
+     "text": "Backend states reached by every history of <=2 (quick) / <=3 (thorough) edit/argument/file actions with real runs in between; in each, the "
+     "next configuration is run dry and for real on two copies: the dry run submits nothing and calls no task function, equals the real run if it "
+     "completes, and the real run executes something if the dry run stopped.",
+     "note": _SCHED_NOTE},
+    {"id": "C30", "engine": "opseq", "level": "model_checking",
+     "technique": "exhaustive enumeration of file-operation histories on a real filesystem with invariants after every operation",
+     "text": "For 3 file classes and 6 directory/file-set classes all histories of 3 (quick) / 4 (thorough) operations (redun-mediated and external "
+     "writes, appends, copies, removals, touches, mkdir/rmdir, Dir.copy_to); hashing never raises and is deterministic, mediated writes leave the "
+     "fresh hash, is_valid <=> recorded == current, content hashes follow bytes.",
+     "note": "Local filesystem; writes always use a new size, touches explicit logical times."},
+]
+
 _ALL = [f"C{i:02d}" for i in range(1, 39)]
 _claimed = {c["id"] for c in CHECKS}
 _REASONS = {}
